@@ -378,9 +378,17 @@ def run(pid, tier, seed, a):
     for (t, k), n in summary.items():
         print(f"[{pid}] {t:<28} {k:<8} {n} obligations unsat in z3 and cvc5")
     if violations:
+        seen_v = {}
         for ob, rp in violations:
+            k = (ob["target"], ob["msg"])
+            seen_v[k] = seen_v.get(k, 0) + 1
+            if seen_v[k] > 1:
+                continue
             print(f"  violated: {ob['target']} {ob['block']}: {ob['msg']}  witness={rp.get('member')}")
             print(f"VIOLATION property={pid} replay={rp['path']}")
+        for (t, m), n in seen_v.items():
+            if n > 1:
+                print(f"  ({n} paths violate: {t}: {m[:80]})")
         return 1, evidence
     if bad or unrealised:
         for ob, v in bad:
